@@ -29,6 +29,13 @@ type FailErr struct {
 
 func (e *FailErr) Error() string { return fmt.Sprintf("body f%d exec %d failed", e.Func, e.Exec) }
 
+// CErr is a concrete error type used as a final, non-error-interface result.
+type CErr struct{ N int }
+
+func (e *CErr) Error() string { return fmt.Sprintf("cerr %d", e.N) }
+
+var cerrType = reflect.TypeOf((*CErr)(nil))
+
 // GenErr is the error a Mode "err" generator reports.
 type GenErr struct{ Gen int }
 
@@ -302,6 +309,8 @@ func (w *World) MakeGoFunc(fs *FuncSpec) interface{} {
 	}
 	if fs.HasErr {
 		out = append(out, errType)
+	} else if fs.ConcreteErr {
+		out = append(out, cerrType)
 	}
 	ft := reflect.FuncOf(in, out, false)
 	fn := reflect.MakeFunc(ft, func(args []reflect.Value) []reflect.Value {
@@ -329,6 +338,8 @@ func (w *World) MakeGoFunc(fs *FuncSpec) interface{} {
 			} else {
 				res = append(res, reflect.Zero(errType))
 			}
+		} else if fs.ConcreteErr {
+			res = append(res, reflect.Zero(cerrType))
 		}
 		return res
 	})
@@ -813,4 +824,36 @@ func (w *World) RealizeViaList(fs *FuncSpec, defaults ...argmapper.Arg) (*argmap
 	w.Specs[fs.ID] = fs
 	w.mu.Unlock()
 	return fl[0], nil
+}
+
+// AddAltLabels records that the caller-supplied token tok, handed to the
+// redefined function rf, may travel on under any input label of rf that is
+// R+-compatible with the label it was supplied under (rf resolves its own
+// inputs first and re-supplies them to the inner call under ITS labels).
+func (w *World) AddAltLabels(tok int, rf *argmapper.Func) {
+	w.mu.Lock()
+	defer w.mu.Unlock()
+	org, ok := w.Ledger[tok]
+	if !ok {
+		return
+	}
+	src := org.L
+	src.Dyn = org.Dyn
+	for _, v := range rf.Input().Values() {
+		ti := TypeIdx(v.Type)
+		if ti < 0 {
+			continue
+		}
+		l := Label{Name: v.Name, Type: ti, Sub: v.Subtype, Dyn: org.Dyn}
+		if RPlus(l, src) {
+			dup := false
+			for _, a := range org.Alt {
+				dup = dup || a.Key() == l.Key()
+			}
+			if !dup {
+				org.Alt = append(org.Alt, l)
+			}
+		}
+	}
+	w.Ledger[tok] = org
 }
